@@ -36,6 +36,7 @@ func properties() map[string]*PropertySpec {
 			c01("H_C01_modify", "modify ok", "<= 1 change x <= 2 values, strings < 12 bytes, <= 1 control", ""),
 			c01("H_C01_modify_long", "modify ok", "one change x <= 1 value of up to 299 bytes (length octets in the short, 0x81 and 0x82 forms)", ""),
 			c01("H_C01_modify2", "modify ok", "<= 2 changes x <= 2 values, strings < 12 bytes", ""),
+			c01("H_C01_modify_pair", "pair ok", "two Modify requests (1..2 changes each, one value per change; the second concrete) decoded one after the other: the first message is unchanged afterwards", ""),
 			c01("H_C01_add", "add ok", "<= 2 attributes x <= 2 values, <= 1 control", ""),
 			c01("H_C01_delete", "delete ok", "<= 1 control", "quick"),
 			c01("H_C01_delete2", "delete ok", "every ordered pair of the 12 control kinds", "thorough"),
@@ -70,6 +71,8 @@ func properties() map[string]*PropertySpec {
 			nat("H_C14_roundtrip", "roundtrip", "gldap encode -> wire -> gldap decode, 12 kinds", ""),
 			nat("H_C14_order", "order", "every ordered pair of kinds on one message", ""),
 			nat("H_C04_latecontrol", "written", "response direction: a paging control completed (cookie) after SetControls and before Write reaches the client as it is at Write", ""),
+			nat("H_C04_bind", "written", "response direction: <= 1 control of each of 12 kinds on a bind response with any result code and <= 1 setter reaches the client byte for byte", ""),
+			nat("H_C04_searchdone", "written", "response direction: the same on a search-done response", ""),
 			nat("H_C14_behera_ctor", "ctor", "every subset of {grace, expire, error}; error over all uint values", ""),
 			nat("H_C01_delete2", "delete ok", "request direction: reference client encoding of every ordered pair of kinds decoded by the real decoder", ""),
 		}})
@@ -188,6 +191,7 @@ func properties() map[string]*PropertySpec {
 		Outside:   []string{"one connection, one request; the partial-order queries range over all reorderings of each explored trace that keep every thread's observations (maximal causal model), not over traces with different control flow than the explored ones"},
 		Harnesses: []HarnessSpec{
 			eng("H_C11_startrace", "start race", "Stop racing with Run's start-up: once both have returned nothing is left listening", ""),
+			eng("H_C09_acceptstep", "accept step", "the connection accepted after any number p (0..2^62) of earlier ones is closed and reported once by the time Stop and Run have returned", ""),
 			{Name: "H_C12_orders", Reach: []string{"orders"}, PO: poC12,
 				Bound: "Stop before Run / between Listen and the first Accept / right after Accept / during traffic; slow handler and slow OnClose held by gates; Stop twice; spawn-order schedules; per trace: can OnClose.exit, close, handler.exit, accept or every listener close be ordered after both Stop.return and Run.return?"},
 		}})
@@ -286,6 +290,8 @@ func properties() map[string]*PropertySpec {
 		Harnesses: []HarnessSpec{
 			{Name: "H_C05_writers", Native: true, Reach: []string{"writers"}, PO: poC05,
 				Bound: "2..3 concurrent handlers x 2 frames each, plain or after a StartTLS upgrade; spawn-order schedules + <= 1 preemption at a synchronisation point; per trace the partial-order queries: can two bufio calls of different goroutines coincide? can a foreign bufio call fall between a Write and its Flush?"},
+			{Name: "H_C05_shared_writer", Reach: []string{"shared writer"}, PO: poC05,
+				Bound: "one handler writing one frame from itself and one from a worker goroutine through the same ResponseWriter; spawn-order schedules + 1..2 preemptions at synchronisation points; each frame arrives exactly once; the same partial-order queries"},
 			{Name: "H_C05_upgrade_inflight", Reach: []string{"upgrade inflight"}, PO: poC05,
 				Bound: "a StartTLS request pipelined behind a request whose handler may still be in flight and followed by another request; spawn-order schedules; the same two partial-order queries per bufio.Writer object (Write, Flush, Reset)"},
 			{Name: "H_C05_shutdown_notice", Native: true, Reach: []string{"shutdown notice"}, PO: poC05,
